@@ -42,11 +42,13 @@ def known_entry(ctx, signature):
     return None
 
 
-def minimise(stream, case, obs, failure, max_evals=300):
-    """Greedy delta-debugging under the oracle: keep a smaller case while the same signature fails."""
+def minimise(stream, case, obs, failure, max_evals=300, max_seconds=90.0):
+    """Greedy delta-debugging under the oracle: keep a smaller case while the same signature fails
+    (bounded in evaluations and in time: a failing case that hangs costs a watchdog period per evaluation)."""
     evals = 0
     improved = True
-    while improved and evals < max_evals:
+    t_end = time.time() + max_seconds
+    while improved and evals < max_evals and time.time() < t_end:
         improved = False
         try:
             cands = list(stream.shrink(case))
@@ -54,7 +56,7 @@ def minimise(stream, case, obs, failure, max_evals=300):
             break
         for cand in cands:
             evals += 1
-            if evals > max_evals:
+            if evals > max_evals or time.time() > t_end:
                 break
             o, fails, err = run_case(stream, cand)
             if err is None:
@@ -410,7 +412,7 @@ def check(prop, tier, seed):
         "wall_s": round(time.time() - ctx.t0, 2),
         "violations": len(ctx.violations),
     }
-    C.EVIDENCE_DIR.mkdir(exist_ok=True)
+    C.EVIDENCE_DIR.mkdir(parents=True, exist_ok=True)
     (C.EVIDENCE_DIR / f"{prop}.json").write_text(json.dumps(evidence, indent=1, default=str))
 
     # ---- 6. verdict --------------------------------------------------------------------------
